@@ -94,12 +94,13 @@ impl TimeFilter for ts::TimeSpan {
             if start < end {
                 end
             } else {
-                end.add_hours(24)
-                    .expect("overflow during TimeSpan resolution")
+                // Event offsets may push a bound beyond 24:00: the span is cut at 48:00 and may
+                // be empty, as for other out of bounds offsets.
+                let wrapped_end = end.add_hours(24).unwrap_or(ExtendedTime::MIDNIGHT_48);
+                std::cmp::max(start, wrapped_end)
             }
         };
 
-        assert!(start <= end);
         start..end
     }
 }
